@@ -172,6 +172,29 @@ def receiveServerIdentity (proven : Option Nat) (announced : Nat) : Option Nat :
 the connection's: `packet.ServerIdentity = remote` -/
 def handleConn (remote : Nat) (f : Frame) : Envelope := { peer := some remote, frame := f }
 
+/-- what a peer can put on an established connection: a protocol-message frame, or — again — a `ServerIdentity`
+message describing any server it likes (the type is registered, nothing stops a peer from sending it in
+mid-connection) -/
+inductive Item where
+  | frame (f : Frame)
+  | ident (described : Nat)
+  deriving DecidableEq, Repr
+
+/-- the receive loop of `Router.handleConn` over the stream of one connection set up with identity `remote`: every
+message is stamped `remote` and dispatched; a `ServerIdentity` message has no processor (it is only ever read by
+`receiveServerIdentity`, before the loop) and is dropped by the dispatcher.  The loop variable `remote` is never
+assigned. -/
+def handleStream (remote : Nat) : List Item → List Envelope
+  | [] => []
+  | .frame f :: l => handleConn remote f :: handleStream remote l
+  | .ident _ :: l => handleStream remote l
+
+/-- the variant that follows the peer's later self-descriptions (seeded as C02r7-A) -/
+def handleStreamAdopt (peer : Nat) : List Item → List Envelope
+  | [] => []
+  | .frame f :: l => handleConn peer f :: handleStreamAdopt peer l
+  | .ident d :: l => handleStreamAdopt d l
+
 /-- `Router.Send` to the server's own identity (router.go:315-327): no connection, the envelope is built and
 dispatched on the spot with the destination — the server itself — as its identity -/
 def sendToSelf (self : Nat) (f : Frame) : Envelope := { peer := some self, frame := f }
@@ -355,6 +378,20 @@ def step (s : State) (toks : List String) : State × String :=
     match claimed? w with
     | some (some k) => msgStep s t snd peer v (some k)
     | _ => (s, "bad-op")
+  -- an eighth token `si<v>`: the sender first announces itself again as server v on the established connection; the
+  -- frame behind it is stamped with the identity the connection was set up with all the same
+  | ["net", conn, t, snd, v, w, si] =>
+    if si.startsWith "si" && ((si.drop 2).toString.toNat?).isSome then
+      match t.toNat?, optNat snd, v.toNat?, claimed? w, conn.toNat?, (si.drop 2).toString.toNat? with
+      | some t, some snd, some v, some cl, some k, some d =>
+        let f : Frame := { ty := t, sender := snd, claimed := cl, val := v }
+        match handleStream k [.ident d, .frame f] with
+        | [e] =>
+          let r := opStep s.inst s.st (.msg (process e))
+          ({ s with st := r.1 }, showDel r.2)
+        | _ => (s, "bad-op")
+      | _, _, _, _, _, _ => (s, "bad-op")
+    else (s, "bad-op")
   | ["net", conn, t, snd, v, w] =>
     match t.toNat?, optNat snd, v.toNat?, claimed? w with
     | some t, some snd, some v, some cl =>
